@@ -41,6 +41,12 @@ gm2calc::MSSMNoFV_onshell* copy_mssm(const gm2calc::MSSMNoFV_onshell&);
 gm2calc::THDM* copy_thdm(const gm2calc::THDM&);
 void destroy(gm2calc::MSSMNoFV_onshell*);
 void destroy(gm2calc::THDM*);
+/// the same constructions through the C interface (gm2calc_mssmnofv_new + setters + calculate/convert,
+/// gm2calc_thdm_new_with_*_basis); an error code is turned into the exception class it stands for
+gm2calc::MSSMNoFV_onshell* make_mssm_c(const MssmPoint&);
+gm2calc::THDM* make_thdm_c(const ThdmPoint&);
+void destroy_c(gm2calc::MSSMNoFV_onshell*);
+void destroy_c(gm2calc::THDM*);
 
 int n_mssm_fns();
 const char* mssm_fn_name(int);
